@@ -303,7 +303,9 @@ def splice_predicates(prog, b):
         from .inline import module_of
         if module_of(cb) != module_of(prog.bodies.get(b.root, b)):
             return False        # predicates of other modules (ResponseBuilder::is_frame_in_progress) are anchors of their own rules
-        return not any((callee(t) or {}).get("def", "").startswith(cb.crate + "::") for _, t in cb.calls())
+        # what it calls stays a call (`eof_is_premature(&builder, n)` = `builder.is_frame_in_progress() || n != 0`: the anchor
+        # call is then seen in the caller)
+        return True
     nb = inlined(prog, b, want, depth=1)
     b = nb if nb.raw.get("inlined") else b
     # ... and the private *async* helpers that wrap the transport read (`read_more(io, buf).await?`): the read, its result and
